@@ -142,6 +142,11 @@ def confidential_views(c, prog, rule):
              "confidential::ValueBlindingFactor::zero": "confidential::ValueBlindingFactor::ValueBlindingFactor{secp256k1_zkp::ZERO_TWEAK}",
              "confidential::AssetBlindingFactor::new": "confidential::AssetBlindingFactor::AssetBlindingFactor{secp256k1_zkp::Tweak::new(arg1)}",
              "confidential::ValueBlindingFactor::new": "confidential::ValueBlindingFactor::ValueBlindingFactor{secp256k1_zkp::Tweak::new(arg1)}"}
+    views.update({
+        "<confidential::Value as std::convert::From<secp256k1_zkp::PedersenCommitment>>::from": "confidential::Value::Confidential{arg1}",
+        "<confidential::Asset as std::convert::From<secp256k1_zkp::Generator>>::from": "confidential::Asset::Confidential{arg1}",
+        "<confidential::Nonce as std::convert::From<secp256k1_zkp::PublicKey>>::from": "confidential::Nonce::Confidential{arg1}",
+    })
     for fnp, w in views.items():
         f = prog.fn(fnp)
         t = show(Prov(f.body).local(0), -30)
